@@ -131,11 +131,13 @@ class Engine(GenericConcreteEngine[Callable[..., Any]]):
                     return tree, commutator.done, commutator.messages
                 else:
                     upstream, done, messages = self.backtrack_unary(commutator.first, target, preferred)
-                    if upstream is not target or commutator.second is not tree.operation:
+                    if upstream is not target or (done and commutator.second is not tree.operation):
                         # Rebuild when anything upstream changed, and also when
                         # the commutator replaced the existing operation (e.g.
-                        # a projection that supersedes a calculation) even if
-                        # the moved operation did nothing further upstream.
+                        # a projection that supersedes a calculation) and the
+                        # moved operation was fully taken care of upstream even
+                        # though it did nothing there.  If it was blocked
+                        # instead, the replacement must not be used.
                         result = commutator.second._finish_apply(upstream)
                     else:
                         result = tree
